@@ -1,4 +1,5 @@
 import HdVerif.Proofs.Stack
+import HdVerif.Proofs.StackTie
 /-! # C11  Slice stacks are recognised, ordered and assembled correctly
 
 Property theorems only (helper lemmas in `Proofs/Stack.lean`).  Statements are about the model
@@ -802,5 +803,51 @@ example : getVolumePositions [[0, 0, 2], [0, 0, 1], [0, 0, 0]] [1, 0, 0, 0, 1, 0
     = .ok (some (1, [0, 1, 2])) := by decide +kernel
 example : getVolumePositions [[0, 0, 1], [0, 0, 0], [0, 0, 2]] [1, 0, 0, 0, 1, 0] { sort := false } = .ok none := by
   decide +kernel
+
+/-! ## the hand-written arithmetic is the source's (bridges, `Proofs/StackTie.lean`)
+
+The theorems above speak about the hand-written `spacingRegular`, `spacingMissing`, `examine`, `assembleFrames`,
+`assembleSeries`.  Their scalar expressions and index choices are regenerated from the source (targets TC11v, TC11a:
+`Gen.meanSpacing`, `Gen.hintCompared`, `Gen.gapMultiple`, `Gen.gapRtol`, `Gen.gapAtol`, `Gen.gapZeroAtol`,
+`Gen.handednessRefuses`, `Gen.returnedSpacing`, `Gen.singlePositionSpacing`, `Gen.stackedSlices`, `Gen.stackedOriginPosition`,
+`Gen.seriesFirstFromSorted`, `Gen.seriesFirstIndex`, `Gen.seriesSingleSpacing`); the hand-written definitions are EQUAL to their
+twins built from those. -/
+
+/-- no gaps: the mean spacing and the quantity compared with the hint are the source's expressions -/
+theorem tie_no_gaps_expressions (ds : List Rat) (rk : List Nat) (hint : Option Rat) (rtol atol : Rat) :
+    spacingRegular ds rk hint rtol atol = spacingRegularSrc ds rk hint rtol atol :=
+  spacingRegular_uses_source ds rk hint rtol atol
+
+/-- gaps: the multiples, their tolerances and the zero test of the estimated spacing are the source's expressions -/
+theorem tie_gaps_expressions (d ds : List Rat) (hint : Option Rat) (rtol atol : Rat) :
+    spacingMissing d ds hint rtol atol = spacingMissingSrc d ds hint rtol atol :=
+  spacingMissing_uses_source d ds hint rtol atol
+
+/-- after both routes: the handedness refusal and the returned spacing are the source's expressions; a single position gets
+the source's stipulated spacing -/
+theorem tie_handedness_and_returned_spacing (nrm : V3) (u : List V3) (sorted allowMissing : Bool) (hint : Option Rat)
+    (rtol atol : Rat) (enforce : Bool) :
+    examine nrm u sorted allowMissing hint rtol atol enforce = examineSrc nrm u sorted allowMissing hint rtol atol enforce ∧
+    (match hint with | none => Gen.singlePositionSpacing | some h => .ok h) = .ok (hint.getD 1) :=
+  ⟨examine_uses_source nrm u sorted allowMissing hint rtol atol enforce, single_position_uses_source hint⟩
+
+/-- assembly: number of slices, origin frame, the dataset that positions the volume and the single-dataset spacing are the
+source's choices -/
+theorem tie_assembly_choices {α} (rows : List (List Rat)) (items : List (List Rat × α)) (sbs : List (Option Rat))
+    (ori : List Rat) (hint rtol atol : Option Rat) (allowMissing : Bool) :
+    assembleFrames rows ori hint rtol atol allowMissing = assembleFramesSrc rows ori hint rtol atol allowMissing ∧
+    assembleSeries items sbs ori rtol atol = assembleSeriesSrc items sbs ori rtol atol :=
+  ⟨assembleFrames_uses_source rows ori hint rtol atol allowMissing, assembleSeries_uses_source items sbs ori rtol atol⟩
+
+/-- non-vacuity: the twins evaluate (and refuse) like the functions -/
+example : spacingRegularSrc [0, 2, 4] [0, 1, 2] (some 2) 0 0 = .ok (2, true, [0, 1, 2]) := by decide +kernel
+example : spacingRegularSrc [4, 2, 0] [0, 1, 2] (some 2) 0 0 = .ok (-2, true, [0, 1, 2]) := by decide +kernel
+example : spacingRegularSrc [0, 2, 4] [0, 1, 2] (some 3) 0 0 = .error .runtime := by decide +kernel
+example : spacingMissingSrc [6, 0, 2] [0, 2, 6] none 0 0 = .ok (some (2, true, [3, 0, 1])) := by decide +kernel
+example : spacingMissingSrc [0, 0] [0, 0] none 0 0 = .ok none := by decide +kernel
+example : assembleFramesSrc [[0, 0, -1], [0, 0, 0], [0, 0, -3]] [1, 0, 0, 0, 1, 0] (some 1) none none true
+    = .ok (1, [0, 0, 0], 4, [1, 0, 3]) := by decide +kernel
+example : assembleSeriesSrc [([0, 0, -1], 'b'), ([0, 0, 0], 'a'), ([0, 0, -2], 'c')] [none, none, none] [1, 0, 0, 0, 1, 0] none none
+    = .ok (1, [0, 0, 0], ['a', 'b', 'c']) := by decide +kernel
 
 end HdVerif.C11
